@@ -103,6 +103,10 @@ class C18(Check):
                 for p in (1, 'inf'):
                     js.append(dict(kind='dtw', n1=n1, n2=n2, mode='DTW', p=p, dist='matrix'))
                 js.append(dict(kind='dtw', n1=n1, n2=n2, mode='DTW', p=1, dist='heights'))
+        # a history: the first track of the second matching is itself the result of a matching (it already carries the link features)
+        for (n1, n2) in ((2, 2), (2, 3), (3, 2)):
+            for mode in ('DTW', 'FDTW'):
+                js.append(dict(kind='dtw', n1=n1, n2=n2, mode=mode, p=1, dist='heights', again=True))
         js.sort(key=lambda j: -(j['n1'] * j['n2'] * (3 if j['mode'] == 'FDTW' else 1)))
         return js
 
@@ -151,6 +155,8 @@ class C18(Check):
         t1, t2, d, dim = self._inputs(eng, job)
         try:
             m = self._run(job, t1, t2, dim)
+            if job.get('again'):
+                m = self._run(job, m, t2, dim)
         except Exception as e:
             ctx.fail('match raised %s' % type(e).__name__)
             return
@@ -177,6 +183,8 @@ class C18(Check):
         t1, t2, d, dim = self._inputs(None, job, concrete=inp)
         try:
             m = self._run(job, t1, t2, dim)
+            if job.get('again'):
+                m = self._run(job, m, t2, dim)
         except Exception as e:
             return dict(violation='match raised %s: %s' % (type(e).__name__, e))
         p = job['p']
